@@ -11,6 +11,8 @@ VARIABLES T, v, kind
 
 Leaf3 == { <<"int">>, <<"str">>, <<"date">>, <<"any">> }
 L1 == { <<"list", e>> : e \in Leaf3 } \cup { <<"dict", <<"str">>, e>> : e \in Leaf3 } \cup { <<"set", e>> : e \in Leaf3 \ { <<"any">> } }
+      \cup { <<c, <<"str">>, e>> : c \in {"chainmap", "odict", "ddict"}, e \in { <<"int">>, <<"date">> } }
+      \cup { <<"deque", e>> : e \in { <<"int">>, <<"date">> } } \cup { <<"counter", <<"str">> >> }
 L2 == { <<"list", e>> : e \in L1 } \cup { <<"dict", <<"str">>, e>> : e \in L1 } \cup { <<"opt", e>> : e \in L1 } \cup { <<"tuple", <<e, <<"int">> >> >> : e \in L1 }
 Shapes == L1 \cup L2
 NSets == SUBSET {"list", "dict", "set"}
